@@ -196,9 +196,20 @@ def model_check(events):
             continue
         if e.kind == "dev" and e.d["method"] == "pause" and e.d.get("fexc") == "NoReplayAllowed" and e.d.get("fault") == "raise":
             # the device refuses replay: everything since the checkpoint is forgotten
-            if helpers and helpers[-1]["phase"] == "pre" and helpers[-1]["msgs"] == 0:
+            # (inside '_start_suspender' the devices are paused *before* the cache is turned into the
+            # helper's replay segment; once that command has completed the segment is fixed)
+            if helpers and helpers[-1]["phase"] == "pre" and not helpers[-1].get("started"):
                 helpers[-1]["segment"] = []
             reset()
+            continue
+        if e.kind == "cmd" and e.d["cmd"] == "_start_suspender" and helpers:
+            if e.d["end"] == "ok":
+                helpers[-1]["started"] = True
+            else:
+                # cancelled or failed before the helper plan was installed: the suspension is dropped
+                h = helpers.pop()
+                if e.d["end"] == "cancelled" and cache is not None and not cache:
+                    cache = list(h["segment"])
             continue
         if e.kind != "msg":
             continue
